@@ -301,6 +301,7 @@ func checkC05(p *Prog, res *Result, tier string) {
 	res.rule("C05-R14", "a watch is served only by the node that sequences the writes: every Watch call of the server layer is dominated by IsLeader()==true (C18-R2) - a follower's own event history is empty, its watch stays open and silent", 2)
 	res.rule("C05-R15", "no dead error guard: no branch tests an error variable that is nil on every path (an assignment turned into a shadowing :=): the test that stops a stream after a failed send must be able to fire", 1)
 	res.rule("C05-R16", "the event cache is searched and copied at logical positions: whatever is handed to the ring's wrap function is the ring's start or end counter plus or minus an offset", 6)
+	res.rule("C05-R17", "revisions are not positions: no position into the event cache and no size of a replay is computed from a revision by arithmetic (revisions are not dense); they meet only in comparisons", 8)
 	res.rule("C05-R11", "a delete hands the previous value and revision it read to the event sink on every path after the commit, whatever the commit returned: the DELETE event of a write with unknown outcome (delivered after the repair) still names what was deleted", 2)
 	res.rule("C05-R10", "a forwarder start guarded by a comparison of the requested with the committed revision uses the strict form (requested > committed)", 1)
 	res.rule("C05-R9", "a slice handed over a channel (a broadcast batch, a streamed response) is not written by the sender afterwards: no reuse of a once-allocated buffer, no reset of a field buffer by re-slicing", 2)
@@ -468,6 +469,7 @@ func checkC05(p *Prog, res *Result, tier string) {
 	}
 	checkDeadErrorGuards(p, res, "C05-R15")
 	checkRingLogicalPositions(p, res, "C05-R16")
+	checkRevisionsAreNotPositions(p, res, "C05-R17")
 
 	// ---- R2 ----
 	checkCacheBeforeBroadcast(p, r, w, res)
@@ -630,6 +632,11 @@ func checkC05(p *Prog, res *Result, tier string) {
 		// queued before commit (R1), kept queued until the repair is known to have landed (R3: head not popped),
 		// and never turned into a definite failure on the way (R6): otherwise the applied write gets no event
 		if o.Rule == "C09-R1" || o.Rule == "C09-R6" || (o.Rule == "C09-R3" && strings.Contains(o.Construct, "head not popped")) {
+			res.add("C05-R7", o.Rule+" "+o.Construct, o.Status, o.Pos, o.Detail)
+		}
+		// .. by one consumer (R10), whatever the value (R11), and not before the configured age (R13: a repair that
+		// runs while the original is still committing announces the write twice)
+		if o.Rule == "C09-R10" || o.Rule == "C09-R11" || (o.Rule == "C09-R13" && strings.HasPrefix(o.Construct, "retry.")) {
 			res.add("C05-R7", o.Rule+" "+o.Construct, o.Status, o.Pos, o.Detail)
 		}
 	}
